@@ -147,6 +147,10 @@ func C15Scenarios(tier string) []*h.Scenario {
 		// a failing DescribeAutoScalingGroups makes RunOnce sleep 5 s before scanning: taint values
 		// must carry the time of tainting, not of the scan's start
 		s := &h.Scenario{Name: name, Groups: []h.GroupSpec{g}, Slots: 8, Quantum: Q, MaxEventsPerSlot: 2, FaultOps: map[string]bool{sim.OpDescribeASG: true}}
+		if eff == "" {
+			// failing node reads / writes as well (a retried or repeated write must not stack taints)
+			s.FaultOps = map[string]bool{sim.OpDescribeASG: true, sim.OpK8sGet: true, sim.OpK8sUpdate: true}
+		}
 		s.Init = func(hh *h.Hist) {
 			a := InitASGs(hh)[0]
 			f1 := v1.Taint{Key: "dedicated", Value: "batch", Effect: v1.TaintEffectNoSchedule}
